@@ -128,6 +128,14 @@ def run(ctx, config='rel-all'):
             tp = t['callee'].get('path') or ''
             if tp.endswith('Iterator::for_each') or tp == 'core::ptr::drop_in_place':
                 killers.append(bi)
+            elif tp.endswith('Iterator::next') or tp.endswith('DoubleEndedIterator::next_back'):
+                # `while let Some(x) = self.next() { drop(x) }`: a loop that is only left through the test of next()'s result
+                # consumes (and thereby destroys) everything the iterator still owns
+                for h, blks in g.loops().items():
+                    if bi in blks and t.get('t') is not None:
+                        exits = {u for u in blks for v in g.succ[u] if v not in blks}
+                        if exits and exits <= {t['t']} and b['blocks'][t['t']]['term']['k'] == 'switch':
+                            killers.append(bi)
         nd += 1
         fn = arena.short(b['id'])
         if not killers:
